@@ -97,17 +97,22 @@ def main():
             # a code-shaped contract failed: the code's formula changed.  Whether the PROPERTY is violated is
             # decided by the direct-specification unit (refutation side): a counterexample there is the violation;
             # a proof there means the change was a harmless rewrite; anything else is undecided.
-            cu = driver.load_unit(u["confirm_with"])
-            cr = driver.run_unit(cu, tier, a.keep, tuple(defs), "confirm")
-            cr["defines"] = list(defs); cr["confirms"] = u["name"]
-            unit_records.append(cr)
-            if cr["verdict"] == "violated":
-                violations.append((cu, cr, defs))
-            elif cr["verdict"] == "proved":
-                notes.append("unit %s (code-shaped) no longer matches the code, but the direct specification unit %s proves: property holds; update the shape contract" % (u["name"], cu["name"]))
-                r["verdict"] = "shape-drift"
-            else:
-                undecided.append((u, r, "code-shaped contract failed (%s) and the direct specification unit %s is undecided: %s" % (", ".join(f["id"] for f in r["failed"][:3]), cu["name"], cr["reason"])))
+            names = u["confirm_with"] if isinstance(u["confirm_with"], list) else [u["confirm_with"]]
+            decided = False
+            for k, cname in enumerate(names):
+                cu = driver.load_unit(cname)
+                cr = driver.run_unit(cu, tier, a.keep, tuple(defs), "confirm")
+                cr["defines"] = list(defs); cr["confirms"] = u["name"]
+                unit_records.append(cr)
+                if cr["verdict"] == "violated":
+                    violations.append((cu, cr, defs)); decided = True
+                    break
+                if cr["verdict"] == "proved" and k == len(names) - 1:
+                    # only the LAST (full-domain) unit may declare the change harmless
+                    notes.append("unit %s (code-shaped) no longer matches the code, but the direct specification unit %s proves: property holds; update the shape contract" % (u["name"], cu["name"]))
+                    r["verdict"] = "shape-drift"; decided = True
+            if not decided:
+                undecided.append((u, r, "code-shaped contract failed (%s) and no direct-specification unit (%s) produced a counterexample or a proof: %s" % (", ".join(f["id"] for f in r["failed"][:3]), ", ".join(names), cr["reason"])))
             continue
         if r["verdict"] == "undecided":
             undecided.append((u, r, r["reason"]))
